@@ -109,6 +109,29 @@ func ruleErrLast(c *Ctx) []Obligation {
 		head  *ssa.BasicBlock
 	}
 	var sweeps []sweep
+	// sweeps delegated to a helper: a call in Process to a function that loops over the map calling GetErrors
+	for _, fn := range c.Funcs {
+		if fn == proc || len(c.callsTo(proc, fn)) == 0 {
+			continue
+		}
+		for _, ci := range c.callsTo(fn, getErrors) {
+			h := loopHeaderOf(ci.Block())
+			if h == nil {
+				continue
+			}
+			for _, in := range h.Instrs {
+				if n, okn := in.(*ssa.Next); okn {
+					if r, okr := n.Iter.(*ssa.Range); okr {
+						if _, f, base := loadedField(r.X); (f == fMods || f == fSub) && isParamN(fn, base, 0) {
+							for _, pc := range c.callsTo(proc, fn) {
+								sweeps = append(sweeps, sweep{pc, f, pc.Block()})
+							}
+						}
+					}
+				}
+			}
+		}
+	}
 	for _, ci := range c.callsTo(proc, getErrors) {
 		h := loopHeaderOf(ci.Block())
 		if h == nil {
@@ -155,6 +178,9 @@ func ruleErrLast(c *Ctx) []Obligation {
 	// recorder calls in Process outside sweep loops
 	inSweep := func(in ssa.Instruction) bool {
 		for _, s := range sweeps {
+			if s.call == in {
+				return true
+			}
 			if s.head.Dominates(in.Block()) && blockReaches(in.Block(), s.head, nil) && loopHeaderOf(in.Block()) == s.head {
 				return true
 			}
